@@ -137,7 +137,7 @@ class Gen:
     def build(self, n_ops: int) -> Tuple[fx.GraphModule, List[torch.Tensor]]:
         r, g = self.rng, self.g
         self.budget = n_ops
-        start = r.choice(["input", "plain_sum", "embedding_sum", "unary"])
+        start = r.choice(["input", "plain_sum", "embedding_sum", "unary", "towers", "towers"])
         ins: List[Any] = []
         if start == "input":
             h = self.x
@@ -147,6 +147,17 @@ class Gen:
             y = g.placeholder("y")
             h = g.call_function(operator.add, (self.unary(self.x), g.call_function(torch.tanh, (y,))))
             self.budget -= 2
+        elif start == "towers":      # residual blocks on PARALLEL branches (a DAG, not a chain), combined afterwards
+            y = g.placeholder("y")
+            ta = self.residual(self.unary(self.x) if r.random() < 0.5 else self.x, 1)
+            tb = self.residual(y, 1)
+            if r.random() < 0.3:
+                tb = self.unary(tb)
+            h = g.call_function(operator.mul, (ta, tb)) if r.random() < 0.6 else g.call_function(torch.matmul, (ta, g.call_method("transpose", (tb, -1, -2))))
+            if h.target is torch.matmul:
+                h = g.call_function(torch.matmul, (h, ta))    # back to (2, 4, 8)
+            if r.random() < 0.7:
+                self.budget = 0              # no residual after the combination: the towers' adds are the last ones
         else:
             self.ids = g.placeholder("ids")
             tok = g.call_function(F.embedding, (self.ids, self.param(10, 8)))
